@@ -1,0 +1,34 @@
+//! Verification hooks. Compiled only with `--cfg datadog_dd_native_iast_rewriter_js_verif`.
+//! Gives a native harness access to the private rewriter entry points and records
+//! one event per critical section of the traversal (counter, context, status, block epilogue).
+use std::cell::RefCell;
+
+pub use crate::lib_wasm::{verif_get_metrics as get_metrics, verif_to_config as to_config};
+pub use crate::rewriter::{
+    generate_prefix_stmts, print_js, rewrite_js, verif_parse_js as parse_js, Config,
+    OriginalSourceMap, RewrittenOutput,
+};
+pub use crate::util::{file_name, FileReader};
+pub use crate::visitor::literal_visitor::LiteralsResult;
+
+thread_local! {
+    static EVENTS: RefCell<Option<Vec<(String, i64, i64, String)>>> = const { RefCell::new(None) };
+}
+
+/// start (or restart) recording events on this thread
+pub fn start_recording() {
+    EVENTS.with(|e| *e.borrow_mut() = Some(Vec::new()));
+}
+
+/// stop recording and return what was recorded
+pub fn take_events() -> Vec<(String, i64, i64, String)> {
+    EVENTS.with(|e| e.borrow_mut().take().unwrap_or_default())
+}
+
+pub fn emit(ev: &str, a: i64, b: i64, s: &str) {
+    EVENTS.with(|e| {
+        if let Some(events) = e.borrow_mut().as_mut() {
+            events.push((ev.to_string(), a, b, s.to_string()));
+        }
+    });
+}
